@@ -37,7 +37,14 @@ def seeded_table():
         if os.path.exists(sp):
             summ = open(sp).read().strip().replace('\n', ' ').replace('|', '\\|')
         keys = '; '.join(re.sub(r'^\[[^\]]*\] ', '', k).split(':  ')[0].split(': ')[0][:70] for k in j['check'].get('first_keys', [])[:2]).replace('|', '\\|')
-        hist = ', '.join('missed' if h.get('detected') is False else 'caught' for h in j.get('history', [])) or '-'
+        # history of earlier evaluations, run-length compressed: "missed, caught x5"
+        hs, hist = ['missed' if h.get('detected') is False else 'caught' for h in j.get('history', [])], []
+        for h in hs:
+            if hist and hist[-1][0] == h:
+                hist[-1][1] += 1
+            else:
+                hist.append([h, 1])
+        hist = ', '.join(h if n == 1 else f'{h} x{n}' for h, n in hist) or '-'
         rows.append(f"| {name} | {j['property']} | {summ} | {j['repo_tests_with_patch'].split(',')[0]} | exit {j['demo_without_patch']['exit']} -> {j['demo_with_patch']['exit']} | "
                     f"{('caught (exit 1)' if j['detected'] else 'MISSED (exit %s)' % j['check']['exit']) if j.get('confirmed', True) else 'n/a: no longer breaks the property on the repaired tree'} | {keys} | {hist} |")
     return '\n'.join(rows)
